@@ -828,6 +828,7 @@ func AdoptSession(p Persistence, c *Config) (client *Client, warn []error, fatal
 
 	// storage includes a sequence number
 	storeOrderPerKey := make(map[uint]uint64, len(keys))
+	var storageSeqNoMax uint64
 
 	// “When a Client reconnects with CleanSession set to 0, both the Client
 	// and Server MUST re-send any unacknowledged PUBLISH Packets (where QoS
@@ -856,6 +857,9 @@ func AdoptSession(p Persistence, c *Config) (client *Client, warn []error, fatal
 		}
 
 		storeOrderPerKey[key] = storageSeqNo
+		if storageSeqNo > storageSeqNoMax {
+			storageSeqNoMax = storageSeqNo
+		}
 
 		switch packet[0] >> 4 {
 		case typePUBLISH:
@@ -894,7 +898,10 @@ func AdoptSession(p Persistence, c *Config) (client *Client, warn []error, fatal
 	}
 
 	// instantiate client
-	client = newClient(&ruggedPersistence{Persistence: p}, c)
+	rugged := &ruggedPersistence{Persistence: p}
+	// continue the storage order; new records must sort after the adopted
+	rugged.seqNo.Store(storageSeqNoMax)
+	client = newClient(rugged, c)
 	// compare with the effective limits (negative means default)
 	if n := len(publishAtLeastOnceKeys); n > client.AtLeastOnceMax {
 		return nil, warn, fmt.Errorf("mqtt: %d AtLeastOnceMax is less than the %d pending in session", client.AtLeastOnceMax, n)
